@@ -999,6 +999,11 @@ PropHolds(s) ==
                  /\ s.calls[c].agen = s.ag[s.calls[c].who].rid /\ s.calls[c].res.status = 200
                  /\ s.calls[c].res.kind \in {"INVOKE", "SHUTDOWN"})
               => s.calls[c].res.kind \in s.ag[s.calls[c].who].subs,
+      \* C18: a restore is never reported successful while the runtime is still parked in its restore poll
+      \* (it must have been released, run its hooks and asked for its next event; a runtime still busy with the
+      \* hooks of an earlier, failed restore is not covered)
+      RestoreOkOnlyAfterHook |->
+          (s.pcT.pc = "done" /\ s.pcT.err = "") => s.rt # "RestoreReady",
       \* C08: once a reset is over and nothing of the old generation is still running, nothing of it is left
       ResetIsFresh |->
           IdleAfterReset(s) =>
